@@ -168,4 +168,15 @@ theorem failed_sample_eq {Req : Type} (scName stepName : String) :
       .sample (scName ++ Gen.C15Scen.stepTagSep ++ stepName ++ Gen.C15Scen.tagSep ++ Gen.C15Scen.emptyTag)
         Gen.C15Scen.failCode Gen.C15Scen.failTagged := rfl
 
+/-- round 6 (repair 4cfc662): the refusal of the model's `decodeAmmo` after `SpreadNames` is `config.CheckSpread` as
+regenerated — the total is refused, or the count of some scenario is -/
+theorem spreadRefused_iff (names : List (List Char × Int)) (total : Int) :
+    spreadRefused names total = true ↔
+      (Gen.C15Scen.spreadTotalRefused total ∨ ∃ nc ∈ names, Gen.C15Scen.spreadCntRefused nc.2) := by
+  unfold spreadRefused Gen.C15Scen.spreadTotalRefused Gen.C15Scen.spreadCntRefused maxSpreadSize
+  simp [List.any_eq_true]
+
+/-- `decodeAmmo` hands the result of `SpreadNames` to `CheckSpread` before it allocates the ring -/
+theorem spreadChecked_eq : Gen.C15Scen.spreadChecked = true := rfl
+
 end Pandora.Bridge.C15Scen
